@@ -137,7 +137,7 @@ def check_C04(ctx):
     rng = ctx.rng
     invs, cases = [], []
     for _ in range(ctx.scale(2500, 25000)):
-        root, path, per_level, cmds = tree_invocation(ctx, rng.randint(1, 3), 3, reject_prob=0.25)
+        root, path, per_level, cmds = tree_invocation(ctx, rng.randint(1, 3) if rng.random() < 0.97 else rng.randint(5, 7), 3, reject_prob=0.25)
         root["policy"] = 0
         for c in cmds:
             c["before"], c["after"] = {"k": "ret"}, {"k": "ret"}
@@ -215,7 +215,7 @@ def check_C07(ctx):
     rng = ctx.rng
     invs, cases = [], []
     for _ in range(ctx.scale(3000, 30000)):
-        root, path, per_level, cmds = tree_invocation(ctx, rng.randint(0, 3), 3, reject_prob=0.5, conv=True)
+        root, path, per_level, cmds = tree_invocation(ctx, rng.randint(0, 3) if rng.random() < 0.97 else rng.randint(5, 7), 3, reject_prob=0.5, conv=True)
         for c in cmds:
             if rng.random() < 0.5:
                 c["policy"] = rng.choice([0, 1, 2])
@@ -386,7 +386,7 @@ def check_C14(ctx):
     rng = ctx.rng
     cases, meta = [], []
     for _ in range(ctx.scale(1500, 15000)):
-        root, path, per_level, cmds = tree_invocation(ctx, rng.randint(0, 3), 3, reject_prob=0.4)
+        root, path, per_level, cmds = tree_invocation(ctx, rng.randint(0, 3) if rng.random() < 0.97 else rng.randint(5, 7), 3, reject_prob=0.4)
         for c in cmds:
             if rng.random() < 0.6:
                 c["policy"] = rng.choice([0, 1, 2])
@@ -548,6 +548,8 @@ def value_cases(ctx):
             # empty elements: in the middle, at the end, alone (an empty element is a value for strings and
             # does not convert for the numeric kinds)
             envvals += [valid[0] + ",," + valid[1], valid[0] + "," + valid[1] + ",", ","]
+            # a long list
+            envvals += [", ".join(valid[i % len(valid)] for i in range(40))]
             # elements padded with blanks other than the space
             envvals += [valid[0] + ",\t" + valid[1] + "\t", "\r\n" + valid[1] + " ,\v" + valid[0] + "\f"]
             # ... and with the non-ASCII blanks of Go's unicode.IsSpace (UTF-8 bytes); a lone 0xA0 byte is not a blank
@@ -801,6 +803,28 @@ def check_C13(ctx):
                     root = gen.mkcmd("app", decls=[d], spec="-x..." if isopt else "ARG...", policy=0)
                     seqs.append({"op": "run", "env": {}, "version": None, "root": root, "argv": argv,
                                  "_kind": kind, "_toks": ts, "_isopt": isopt})
+    # long lists: 20-60 values on the command line and in one environment variable, a failing one at a random place in half
+    for kind in ("ints", "floats", "strings"):
+        elem = ELEM[kind]
+        good, badl = VALID[elem], [b for b in (INVALID[elem] or []) if b and "," not in b]
+        for isopt in (True, False):
+            for _ in range(ctx.scale(6, 40)):
+                n = rng.randint(20, 60)
+                ts = [rng.choice(good) for _ in range(n)]
+                if badl and rng.random() < 0.5:
+                    ts[rng.randrange(n)] = rng.choice(badl)
+                d = (gen.mkopt if isopt else gen.mkarg)(kind, "x val" if isopt else "ARG", sbu=True, **{"def": list(DEFAULTS[kind][0])})
+                argv = [("-x=" + t) for t in ts] if isopt else ["--"] + ts
+                seqs.append({"op": "run", "env": {}, "version": None, "root": gen.mkcmd("app", decls=[d], spec="-x..." if isopt else "ARG...", policy=0),
+                             "argv": argv, "_kind": kind, "_toks": ts, "_isopt": isopt})
+                if all("," not in t for t in ts):
+                    d2 = copy.deepcopy(d)
+                    d2["env"] = "VE_T"
+                    t = ", ".join(ts)
+                    cases.append({"op": "run", "env": {"VE_T": t}, "version": None,
+                                  "root": gen.mkcmd("app", decls=[d2], spec="[-x]" if isopt else "[ARG]", policy=0), "argv": [],
+                                  "_kind": kind, "_tok": t, "_route": "env", "_isopt": isopt})
+                    toks.append(t)
     res_seq = correspond(ctx, seqs, ["outcome", "trace", "values"], "token sequences for multi-valued variables")
     res = correspond(ctx, cases, ["outcome", "trace", "values"], "tokens x kinds x opt/arg x route")
     strs = set(toks)
@@ -973,9 +997,9 @@ def check_C18(ctx):
     cases = []
     onames = ["a", "b", "f", "force", "o", "out", "v", "x", "aa", "A", "1", "a-b", "_", "ab"]
     anames = ["SRC", "DST", "X", "src", "Src", "S R", "A1", "_A", "1A", "OPTIONS", "A-B", "A.B", "", "É", "A_", "ARG", "-", "--", "[A]", "A..."]
-    for _ in range(ctx.scale(4000, 40000)):
+    for k_ in range(ctx.scale(4000, 40000)):
         decls = []
-        for _ in range(rng.randint(1, 6)):
+        for _ in range(rng.randint(1, 6) if k_ % 40 else rng.randint(15, 40)):     # a few long sequences
             if rng.random() < 0.6:
                 names = rng.sample(onames, rng.randint(1, 3))
                 if rng.random() < 0.15:
